@@ -562,7 +562,9 @@ func (ev *Evaluator) evalPathStep(step jast.Node, data Value, env *Env, last boo
 			results = append(results, r)
 		}
 	}
-	if last && len(results) == 1 {
+	_, isCons := step.(*jast.Array)
+	// (what an array constructor makes is one item of the results: a unit)
+	if last && len(results) == 1 && !isCons {
 		r0 := results[0]
 		if sq, ok := r0.(*Seq); ok {
 			r0 = sq.collapse()
@@ -571,7 +573,6 @@ func (ev *Evaluator) evalPathStep(step jast.Node, data Value, env *Env, last boo
 			return r0, nil
 		}
 	}
-	_, isCons := step.(*jast.Array)
 	s := &Seq{}
 	for _, v := range results {
 		if sq, ok := v.(*Seq); ok {
